@@ -1480,6 +1480,21 @@ class Enumerator:
             return
         s0 = st.fork()
         it = subst(node.iter, s0.env)
+        if self.unroll and isinstance(it, ast.Name) and it.id.startswith(
+                'SYM_m') and isinstance(self.defs.get(it.id), (
+                    ast.List, ast.Tuple)) and 0 < len(
+                        self.defs[it.id].elts) <= 4 and not any(
+                            isinstance(e, ast.Starred)
+                            for e in self.defs[it.id].elts) and \
+                self._coll_truth(it, st) is True and not any(
+                    e.kind == 'call' and isinstance(
+                        e.node.func, ast.Attribute) and isinstance(
+                            e.node.func.value, ast.Name)
+                    and e.node.func.value.id == it.id for e in st.events):
+            # a literal display nobody touched since: walk its elements
+            yield from self._for_unrolled(node, self.defs[it.id].elts, st,
+                                          handlers)
+            return
         if has_call(it):
             for c in reversed([n for n in ast.walk(it)
                                if isinstance(n, ast.Call)]):
